@@ -5,8 +5,8 @@
    loop gets the same fuel.  The model flattens the walk: one finger step per unit of its fuel,
    Panic for an index out of range or a step through -1, NoFuel when two distinct nodes carry the
    same post-order number (the code would spin).  The tie: whenever the model returns Ok r with
-   fuel f, the generated code returns Some r for every fuel > f.  IDom's sweep (continue in nested
-   loops), DomFrontier (goto) and the traversals are outside the translator's subset. *)
+   fuel f, the generated code returns Some r for every fuel > f.  IDom's sweep: below; DomFrontier:
+   Tie/DomFrontier.v; the traversals: Tie/OrderVisit.v. *)
 From Coq Require Import ZArith NArith List Bool Lia PeanoNat.
 From MM Require Import Base.Num Base.GoSem Model.Dom.
 From MMGen Require Import Gen_graphalg_dom.
